@@ -19,6 +19,7 @@
 //!          | dmint <scripts 0|1> <k> { <policy> <name> <amount> }*  set_mint (deprecated)
 //!          | dcerts <k> { <tag> <coin|~> <script 0|1> }*           set_certs (deprecated)
 //!          | dwd <k> { <addr> <coin> <script 0|1> }*               set_withdrawals (deprecated)
+//!          | rmmint                                                 remove_mint_builder
 //!          | kprops <k> { <identity> <deposit> }*                  VotingProposalBuilder::add per item (same identity and deposit = the same proposal)
 //!   addr  = address id (>= 1; kind and bytes are a function of the id), extra = 0 none, 1 datum hash, 2 inline datum,
 //!           3 script ref, 4 inline datum + script ref.  UTxO id i is outpoint (hash(i), i mod 7) locked by key address.
@@ -292,6 +293,7 @@ enum Op {
     DCerts(Vec<(u32, Option<BigNum>, bool)>),
     DWd(Vec<(u64, BigNum, bool)>),
     KProps(Vec<(u64, BigNum)>),
+    RmMint,
 }
 fn opt_bn_s(o: &Option<BigNum>) -> String { match o { Some(v) => v.to_str(), None => "~".into() } }
 impl Op {
@@ -320,6 +322,7 @@ impl Op {
             Op::AddMint(p, n, amt) => format!("addmint {} {} {}", hex::encode(p), hex_or_dash(n), amt),
             Op::DMint(ok, es) => { let mut s = format!("dmint {} {}", *ok as u8, es.len()); for (p, n, a) in es { s.push_str(&format!(" {} {} {}", hex::encode(p), hex_or_dash(n), a)); } s }
             Op::DCerts(cs) => { let mut s = format!("dcerts {}", cs.len()); for (t, c, sc) in cs { s.push_str(&format!(" {} {} {}", t, opt_bn_s(c), *sc as u8)); } s }
+            Op::RmMint => "rmmint".into(),
             Op::KProps(ps) => { let mut s = format!("kprops {}", ps.len()); for (i, d) in ps { s.push_str(&format!(" {} {}", i, d.to_str())); } s }
             Op::DWd(ws) => { let mut s = format!("dwd {}", ws.len()); for (a, c, sc) in ws { s.push_str(&format!(" {} {} {}", a, c.to_str(), *sc as u8)); } s }
         }
@@ -390,6 +393,7 @@ fn parse(toks: &[String]) -> Scenario {
             "addmint" => { let pol = hex::decode(p.next()).unwrap(); let n = unhex_or_dash(p.next()); Op::AddMint(pol, n, p.next().to_string()) }
             "dmint" => { let ok = p.next() == "1"; let k = p.count().unwrap(); Op::DMint(ok, (0..k).map(|_| { let pol = hex::decode(p.next()).unwrap(); let n = unhex_or_dash(p.next()); (pol, n, p.next().to_string()) }).collect()) }
             "dcerts" => { let k = p.count().unwrap(); Op::DCerts((0..k).map(|_| { let t: u32 = p.next().parse().unwrap(); let c = p.opt_bn(); (t, c, p.next() == "1") }).collect()) }
+            "rmmint" => Op::RmMint,
             "kprops" => { let k = p.count().unwrap(); Op::KProps((0..k).map(|_| { let i = p.u64(); (i, bn(p.next())) }).collect()) }
             "dwd" => { let k = p.count().unwrap(); Op::DWd((0..k).map(|_| { let a = p.u64(); let c = bn(p.next()); (a, c, p.next() == "1") }).collect()) }
             x => panic!("bad op {}", x),
@@ -651,6 +655,7 @@ fn run_op(w: &mut World, op: &Op, last_tx: &mut Option<Transaction>) -> OpRec {
             });
             OpRec { res: res_unit(r), tape: vec![], sel: None, attempts: 0 }
         }
+        Op::RmMint => { w.tb.remove_mint_builder(); OpRec { res: "ok".into(), tape: vec![], sel: None, attempts: 0 } }
         Op::KProps(ps) => {
             // the same (identity, deposit) gives the identical VotingProposal: added twice it is in the builder once
             let mut b = VotingProposalBuilder::new();
@@ -1069,6 +1074,37 @@ fn gen_scenario(r: &mut Rng, stream: u32) -> Scenario {
         }
     }
     if r.chance(1, 10) { post.push(Op::Change(change_addr, 0)); }           // a second change attempt
+    // mutations AFTER the balancing step and before build_tx (the final balance check has to see them): 0-2 operations
+    // drawn from every mutator that takes part in the balance (and a few that do not)
+    if r.chance(1, 3) {
+        let has = |f: &dyn Fn(&Op) -> bool| pre.iter().any(|o| f(o));
+        let n_mut = r.range(1, 2);
+        for _ in 0..n_mut {
+            // half of the time: take away something that is there
+            let mut present: Vec<Op> = vec![];
+            if has(&|o| matches!(o, Op::Wd(Some(_)) | Op::DWd(_))) { present.push(Op::Wd(None)); }
+            if has(&|o| matches!(o, Op::Certs(Some(_)) | Op::DCerts(_))) { present.push(Op::Certs(None)); }
+            if has(&|o| matches!(o, Op::Mint(..) | Op::AddMint(..) | Op::DMint(..) | Op::MintOut(..) | Op::MintOutMin(..))) { present.push(Op::RmMint); }
+            if !present.is_empty() && r.chance(1, 2) { let k = r.below(present.len() as u64) as usize; post.push(present[k].clone()); continue; }
+            let m = match r.below(16) {
+                0 | 1 => if has(&|o| matches!(o, Op::Wd(Some(_)) | Op::DWd(_))) || r.chance(1, 3) { Op::Wd(None) } else { Op::Wd(Some(vec![(r.range(1, 6), b64(r.range(1, 2_000_000)))])) },
+                2 | 3 => if has(&|o| matches!(o, Op::Certs(Some(_)) | Op::DCerts(_))) || r.chance(1, 3) { Op::Certs(None) } else { Op::Certs(Some(gen_certs(r, false))) },
+                4 => Op::RmMint,
+                5 => Op::Don(b64(r.range(0, 2_000_000))),
+                6 => Op::Treas(b64(r.below(3) * 1_000_000_000)),
+                7 => Op::Wd(Some(vec![(r.range(1, 6), b64(r.range(0, 2_000_000)))])),
+                8 => Op::Out(r.range(1, 30), 0, Val::ada(r.range(1_000_000, 3_000_000))),
+                9 => { let (id, _) = r.pick(&utxos).clone(); Op::In(id) },
+                10 => if r.chance(1, 2) { Op::Fee(b64(r.range(150_000, 2_000_000))) } else { Op::MinFee(b64(r.range(150_000, 2_000_000))) },
+                11 => Op::KProps(vec![(0, b64(r.range(0, 3_000_000)))]),
+                12 => Op::Props(Some(vec![b64(r.range(1, 3_000_000))])),
+                13 => Op::Mint(false, policy_bytes(r.below(N_POLICIES)), gen_name(r), format!("{}", r.range(1, 1000))),
+                14 => Op::DWd(vec![(r.range(1, 6), b64(r.range(1, 2_000_000)), false)]),
+                _ => Op::Col(vec![]),
+            };
+            post.push(m);
+        }
+    }
     if r.chance(1, 15) { post.push(Op::Out(r.range(1, 30), 0, Val::ada(1_500_000))); }   // edits after balancing
     post.push(Op::Build);
     let mut ops = pre; ops.extend(hist); ops.extend(post);
